@@ -45,6 +45,21 @@ func subPackets(thorough bool) [][]subEntry {
 			}
 		}
 	}
+	// lists long enough for the SUBACK's remaining length (2 + n) to need a second length
+	// byte (n >= 126), and a SUBSCRIBE of several kilobytes
+	for _, n := range []int{125, 126, 127, 128, 300} {
+		if !thorough && (n == 127 || n == 128) {
+			continue
+		}
+		l := make([]subEntry, n)
+		for i := range l {
+			l[i] = subEntry{fmt.Sprintf("t/%d", i), byte(i % 3)}
+		}
+		out = append(out, l)
+		l2 := append([]subEntry{}, l...)
+		l2[n-1] = subEntry{"x#", 1}
+		out = append(out, l2)
+	}
 	// long lists
 	for _, n := range []int{4, 5, 8, 16} {
 		valid := make([]subEntry, n)
